@@ -525,4 +525,5 @@ def targets(ctx):
                quick=3000, thorough=20000),
         scalar_targets(ctx),
         _seq.target("C16"),
+        *__import__("vf.props._thr", fromlist=["target"]).target(ctx, ['varints_small', 'bytes:Words']),
     ]
